@@ -27,6 +27,7 @@ fn fmix(n: u64, ins: &[Option<u64>]) -> Option<u64> {
 struct Shared {
     fire: Vec<Option<u64>>,
     deps: Vec<Vec<usize>>,
+    dem: Vec<Vec<usize>>,
 }
 
 pub fn run_script<W: Write>(script: &Script, out: &mut W) {
@@ -36,15 +37,29 @@ pub fn run_script<W: Write>(script: &Script, out: &mut W) {
     let shared = Arc::new(Mutex::new(Shared {
         fire: Vec::new(),
         deps: Vec::new(),
+        dem: Vec::new(),
     }));
     let mut nodes: Vec<Node> = Vec::new();
     for line in &script.lines {
         let w: Vec<&str> = line.split_whitespace().collect();
         let r = catch_unwind(AssertUnwindSafe(|| -> String {
             match w[0] {
-                "node" => {
-                    let ds: Vec<usize> = w[1..].iter().map(|x| x.parse().unwrap()).collect();
-                    if ds.iter().any(|d| *d >= nodes.len()) {
+                "node" | "noded" => {
+                    // node d1 d2 ..            : static dependencies
+                    // noded d1 d2 / m1 m2 ..   : static dependencies / nodes demanded from inside the update
+                    let mut ds: Vec<usize> = Vec::new();
+                    let mut dm: Vec<usize> = Vec::new();
+                    let mut in_dm = false;
+                    for x in &w[1..] {
+                        if *x == "/" {
+                            in_dm = true;
+                        } else if in_dm {
+                            dm.push(x.parse().unwrap());
+                        } else {
+                            ds.push(x.parse().unwrap());
+                        }
+                    }
+                    if ds.iter().chain(dm.iter()).any(|d| *d >= nodes.len()) {
                         return format!("ok n={}", nodes.len());
                     }
                     let id = nodes.len();
@@ -53,33 +68,47 @@ pub fn run_script<W: Write>(script: &Script, out: &mut W) {
                     let slot2 = slot.clone();
                     let dep_nodes: Vec<Box<dyn IsNode + Send + Sync>> =
                         ds.iter().map(|d| nodes[*d].box_clone()).collect();
+                    let targets: Vec<Node> = dm.iter().map(|m| nodes[*m].clone()).collect();
+                    let ictx2 = ictx.clone();
                     let node = Node::new(
                         &ictx,
                         NodeName::Node(id as u8),
                         move || {
-                            let mut sh = sh.lock().unwrap();
-                            let ins: Vec<Option<u64>> = sh.deps[id].iter().map(|d| sh.fire[*d]).collect();
-                            if let Some(v) = fmix(id as u64, &ins) {
-                                sh.fire[id] = Some(v);
+                            let ins: Vec<Option<u64>> = {
+                                let sh = sh.lock().unwrap();
+                                sh.deps[id].iter().map(|d| sh.fire[*d]).collect()
+                            };
+                            // like switch_c: when the first static dependency fired, bring the demanded nodes up
+                            // to date as dependencies, from inside this update
+                            let mut all = ins.clone();
+                            if ins.first().map(|x| x.is_some()).unwrap_or(false) {
+                                for t in &targets {
+                                    ictx2.update_node2(t, true);
+                                }
+                                let sh = sh.lock().unwrap();
+                                for m in &sh.dem[id] {
+                                    all.push(sh.fire[*m]);
+                                }
+                            }
+                            if let Some(v) = fmix(id as u64, &all) {
+                                sh.lock().unwrap().fire[id] = Some(v);
                                 let me = slot2.lock().unwrap();
                                 me.as_ref().unwrap().data.changed.store(true, Ordering::SeqCst);
                             }
                         },
                         dep_nodes,
                     );
-                    // the closure refers to its own node without a counted reference cycle mattering here
                     *slot.lock().unwrap() = Some(Node {
                         data: node.data.clone(),
                         gc_node: node.gc_node.clone(),
                         sodium_ctx: node.sodium_ctx.clone(),
                     });
-                    // (the struct literal above bypasses Node::clone's counting; undo the Drop's decrement later
-                    //  by never dropping it: leak the slot)
                     std::mem::forget(slot);
                     {
                         let mut sh = shared.lock().unwrap();
                         sh.fire.push(None);
                         sh.deps.push(ds);
+                        sh.dem.push(dm);
                     }
                     nodes.push(node);
                     format!("ok n={}", nodes.len())
